@@ -131,3 +131,91 @@ Proof.
   intros R N E. simpl in E. destruct (exec (k (takeZ req kb)) (dropZ req kb)) as [[o' k'] e'] eqn:E'. inversion E; subst.
   apply exec_suffix in E'. rewrite lenZ_dropZ in E'. pose proof (lenZ_pos kb N). lia.
 Qed.
+
+(** programs that only issue resumable reads and take no defective path are clean *)
+Inductive lax {S} : prog S -> Prop :=
+| lx_done s r : lax (PDone s r)
+| lx_read req k : (forall d, lax (k d)) -> lax (PRead false req k)
+| lx_up d z p : lax p -> lax (PUp d z p)
+| lx_dn d p : lax p -> lax (PDn d p)
+| lx_hdr n p : lax p -> lax (PHdr n p)
+| lx_fault : lax PFault.
+Lemma lax_clean {S} (p : prog S) : lax p -> forall kb o k e, exec p kb = (o, k, e) -> clean e = true.
+Proof.
+  induction 1; intros kb o k0 e0 E; simpl in E;
+    try (destruct (exec p kb) as [[o' k'] e'] eqn:E'; inversion E; subst; simpl; eauto; fail).
+  - inversion E; subst; reflexivity.
+  - destruct (exec (k (takeZ req kb)) (dropZ req kb)) as [[o' k'] e'] eqn:E'. inversion E; subst. simpl. eauto.
+  - inversion E; subst; reflexivity.
+Qed.
+Lemma flush_queue_lax {S} q (p : prog S) : lax p -> lax (flush_queue q p).
+Proof. induction q; simpl; auto. intros. constructor. auto. Qed.
+Lemma passthrough_lax {S} (s : S) : lax (passthrough s).
+Proof. unfold passthrough. constructor. intros d. destruct (_ =? 0); repeat constructor. Qed.
+
+(* programs without reads leave the kernel buffer alone *)
+Inductive readfree {S} : prog S -> Prop :=
+| rf_done s r : readfree (PDone s r)
+| rf_up d z p : readfree p -> readfree (PUp d z p)
+| rf_dn d p : readfree p -> readfree (PDn d p)
+| rf_mark n p : readfree p -> readfree (PMark n p)
+| rf_hdr n p : readfree p -> readfree (PHdr n p)
+| rf_fault : readfree PFault.
+Lemma readfree_exec {S} (p : prog S) : readfree p -> forall kb o k e, exec p kb = (o, k, e) -> k = kb.
+Proof.
+  induction 1; intros kb o k0 e0 E; simpl in E;
+    try (destruct (exec p kb) as [[o' k'] e'] eqn:E'; inversion E; subst; eauto; fail);
+    inversion E; auto.
+Qed.
+Lemma readfree_flush {S} q (p : prog S) : readfree p -> readfree (flush_queue q p).
+Proof. induction q; simpl; auto. intros. constructor. auto. Qed.
+Lemma readfree_full {S} (p : prog S) : readfree p -> forall kb o k e, exec p kb = (o, k, e) -> all_full e = true.
+Proof.
+  induction 1; intros kb o k0 e0 E; simpl in E;
+    try (destruct (exec p kb) as [[o' k'] e'] eqn:E'; inversion E; subst; simpl; eauto; fail);
+    inversion E; reflexivity.
+Qed.
+
+(** a property of every way a call can return, given that a read of [req] bytes obtains at most [req] *)
+Inductive bleaves {S} (P : S -> Z -> Prop) : prog S -> Prop :=
+| bl_done s r : P s r -> bleaves P (PDone s r)
+| bl_read st req k : (forall d, lenZ d <= Z.max 0 req -> bleaves P (k d)) -> bleaves P (PRead st req k)
+| bl_up d z p : bleaves P p -> bleaves P (PUp d z p)
+| bl_dn d p : bleaves P p -> bleaves P (PDn d p)
+| bl_mark n p : bleaves P p -> bleaves P (PMark n p)
+| bl_hdr n p : bleaves P p -> bleaves P (PHdr n p)
+| bl_fault : bleaves P PFault.
+Lemma bleaves_exec {S} (P : S -> Z -> Prop) (p : prog S) : bleaves P p ->
+  forall kb s1 r k e, exec p kb = (Some (s1, r), k, e) -> P s1 r.
+Proof.
+  induction 1; intros kb s1 r0 k0 e0 E; simpl in E;
+    try (destruct (exec p kb) as [[o' k'] e'] eqn:E'; inversion E; subst; eauto; fail).
+  - inversion E; subst; auto.
+  - destruct (exec (k (takeZ req kb)) (dropZ req kb)) as [[o' k'] e'] eqn:E'. inversion E; subst.
+    eapply H0; [|exact E']. rewrite lenZ_takeZ. pose proof (lenZ_nonneg kb). lia.
+  - inversion E.
+Qed.
+Lemma leaves_bleaves {S} (P : S -> Z -> Prop) (p : prog S) : leaves P p -> bleaves P p.
+Proof. induction 1; constructor; auto. Qed.
+Lemma flush_queue_bleaves {S} P q (p : prog S) : bleaves P p -> bleaves P (flush_queue q p).
+Proof. induction q; simpl; auto. intros. constructor. auto. Qed.
+
+(** the same, and no Fault can be reached *)
+Inductive bok {S} (P : S -> Z -> Prop) : prog S -> Prop :=
+| bk_done s r : P s r -> bok P (PDone s r)
+| bk_read st req k : (forall d, lenZ d <= Z.max 0 req -> bok P (k d)) -> bok P (PRead st req k)
+| bk_up d z p : bok P p -> bok P (PUp d z p)
+| bk_dn d p : bok P p -> bok P (PDn d p)
+| bk_mark n p : bok P p -> bok P (PMark n p)
+| bk_hdr n p : bok P p -> bok P (PHdr n p).
+Lemma bok_exec {S} (P : S -> Z -> Prop) (p : prog S) : bok P p ->
+  forall kb o k e, exec p kb = (o, k, e) -> exists s1 r, o = Some (s1, r) /\ P s1 r.
+Proof.
+  induction 1; intros kb o k0 e0 E; simpl in E;
+    try (destruct (exec p kb) as [[o' k'] e'] eqn:E'; inversion E; subst; eauto; fail).
+  - inversion E; subst; eauto.
+  - destruct (exec (k (takeZ req kb)) (dropZ req kb)) as [[o' k'] e'] eqn:E'. inversion E; subst.
+    eapply H0; [|exact E']. rewrite lenZ_takeZ. pose proof (lenZ_nonneg kb). lia.
+Qed.
+Lemma flush_queue_bok {S} P q (p : prog S) : bok P p -> bok P (flush_queue q p).
+Proof. induction q; simpl; auto. intros. constructor. auto. Qed.
